@@ -181,7 +181,16 @@ def run(ctx):
             ty = (g or {}).get('ty', '') or (l.get('ty') if isinstance(l, dict) else '') or ''
             ctx.check('C07.W1', 'sig_atomic_t' in ty and 'volatile' in ty, f.name, 'handler:store-type', f.where(e),
                       '%s stores to a volatile sig_atomic_t (%s: %s)' % (f.name, dstr(l), ty))
-    ctx.floor('C07.W1', 4)
+    # interrupt signals stay blocked for as long as ninja's own handlers are installed: the constructor blocks
+    # them (sigprocmask) before it installs the handlers, the destructor restores the old handlers before it
+    # restores the old mask - otherwise a pending signal is delivered to a handler nobody listens to any more
+    for fname, first, then in (('SubprocessSet::SubprocessSet', 'sigprocmask', 'sigaction'), ('SubprocessSet::~SubprocessSet', 'sigaction', 'sigprocmask')):
+        ff = prog.fn(fname)
+        a = list(ff.calls(first))
+        b = list(ff.calls(then))
+        ctx.check('C07.W1', bool(a) and bool(b) and all(ff.dominates_ev(x, y) for x in a for y in b), fname, 'signal-mask-order', ff.loc,
+                  'in %s every %s precedes every %s' % (fname, first, then))
+    ctx.floor('C07.W1', 5)
 
     # ---- O3: durability order (flush before acknowledging) — instances live in C08.O1 / C09.O2 -----
     R('C07.O3', 'O', 'work is acknowledged (memory tables updated / success returned) only after its log '
@@ -208,4 +217,15 @@ def run(ctx):
     for nm in ('BuildLog::Recompact', 'BuildLog::Restat', 'DepsLog::Recompact'):
         f = prog.fn(nm)
         ctx.check('C07.O3', any(True for _ in f.calls('ReplaceContent')), nm, 'rewrite:in-place', f.loc, '%s rewrites through ReplaceContent(temp)' % nm)
-    ctx.floor('C07.O3', 7)
+    # a depfile that exists but is empty (the command was killed between creating it and filling it) is as
+    # good as missing: no dependency range may be returned for it
+    ldf = prog.fn('ImplicitDepLoader::LoadDepFile')
+    emp = [(b, i, s2) for b, blk in ldf.blocks.items() for i, s2 in enumerate(blk['succ']) if s2 is not None and
+           any(pol is True and 'content' in k and 'empty' in k for k, pol, atom in ldf.edge_facts(b, i))]
+    oke = bool(emp)
+    for b, i, s2 in emp:
+        r = ldf.find_path(None, lambda x: x['k'] == 'ret' and 'nullopt' not in dstr(x.get('e')), from_succ=s2)
+        oke = oke and r is None
+    ctx.check('C07.O3', oke, ldf.name, 'empty-depfile:trusted', ldf.loc,
+              'LoadDepFile answers "no usable depfile" (nullopt, edge dirty) for an empty depfile')
+    ctx.floor('C07.O3', 8)
